@@ -1,6 +1,7 @@
 package main
 
 import (
+	"go/types"
 	"fmt"
 	"go/token"
 	"strings"
@@ -119,43 +120,94 @@ func ruleS17_1(c *Ctx, id string) {
 	}
 	R.Check(nH >= 5, id, "simple|handlers that reach the journal", "?", "GETATTR, SETATTR, READ, WRITE, COMMIT reach the journal", fmt.Sprintf("%d handlers", nH), fmt.Sprintf("only %d handlers reach the journal", nH))
 	// commit discipline in every simple function that commits
+	// the commit point of a function: a CommitWait call, or a call of a helper that commits on every path
+	always := P.NewAlways(callTo(V.JrnlCommitWait))
 	for _, fn := range P.RepoFuncs("simple") {
-		calls := P.CallsIn(fn, funcIs(V.JrnlCommitWait))
-		if len(calls) == 0 {
+		var pts []*ssa.Call
+		for _, b := range fn.Blocks {
+			for _, in := range b.Instrs {
+				if cl, ok := in.(*ssa.Call); ok && always.Instr(in) {
+					pts = append(pts, cl)
+				}
+			}
+		}
+		if len(pts) == 0 {
 			continue
 		}
 		R.Analysed[FuncName(fn)] = true
-		if len(calls) != 1 {
-			R.Fail(id, FuncName(fn)+"|one commit", P.Pos(fn.Pos()), "one commit per request", fmt.Sprintf("%d CommitWait calls", len(calls)))
+		if len(pts) != 1 {
+			R.Fail(id, FuncName(fn)+"|one commit", P.Pos(fn.Pos()), "one commit per request", fmt.Sprintf("%d commit points", len(pts)))
 			continue
 		}
-		call := calls[0].(*ssa.Call)
-		w, isc := constBool(argN(call, 0))
-		R.Check(isc && w, id, FuncName(fn)+"|CommitWait(true)", P.Pos(call.Pos()), "the commit waits for durability (constant true)", "constant true", "an acknowledged request may not be durable")
+		call := pts[0]
+		if tup, ok := call.Type().(*types.Tuple); ok && tup.Len() == 0 && call.Call.StaticCallee() != V.JrnlCommitWait {
+			continue // the helper reports through the reply it was given: judged inside the helper
+		}
+		if call.Call.StaticCallee() == V.JrnlCommitWait {
+			w, isc := constBool(argN(call, 0))
+			R.Check(isc && w, id, FuncName(fn)+"|CommitWait(true)", P.Pos(call.Pos()), "the commit waits for durability (constant true)", "constant true", "an acknowledged request may not be durable")
+		}
 		if fn.Name() == "Mkfs" || fn.Name() == "MakeNfs" {
 			R.Check(len(refs(call)) > 0, id, FuncName(fn)+"|commit result used", P.Pos(call.Pos()), "the format commit's result is tested", "used", "mkfs failure ignored")
 			continue
 		}
-		// OK only on the true edge
-		tEdge := boolEdge(fn, call, true)
-		nOK := 0
+		// a helper that hands the commit's result to its caller unchanged: the callers are judged
+		passThrough, nRet := true, 0
 		for _, b := range fn.Blocks {
-			for _, in := range b.Instrs {
-				st, ok := in.(*ssa.Store)
-				if !ok || !strings.HasSuffix(fieldPath(st.Addr), "Status") {
-					continue
+			if r, ok := b.Instrs[len(b.Instrs)-1].(*ssa.Return); ok {
+				nRet++
+				if len(r.Results) != 1 || stripConv(r.Results[0]) != ssa.Value(call) {
+					passThrough = false
 				}
-				if k, isk := constInt(st.Val); isk && k == 0 {
+			}
+		}
+		if passThrough && nRet > 0 && isPrivateHelper(fn) {
+			R.PassNT(id, FuncName(fn)+"|status from commit", P.Pos(call.Pos()), "the commit result is returned unchanged to the callers (each judged at its call)", "pass-through helper")
+			continue
+		}
+		nOK := 0
+		if isNamedStatus(call.Type()) {
+			// the helper already turned the commit result into a status: it must become the reply's
+			for _, in := range refs(call) {
+				if st, ok := in.(*ssa.Store); ok && st.Val == ssa.Value(call) && strings.HasSuffix(fieldPath(st.Addr), "Status") {
 					nOK++
-					dom := false
-					for _, pb := range fn.Blocks {
-						for _, s := range pb.Succs {
-							if tEdge(pb, s) && len(s.Preds) == 1 && s.Dominates(b) {
-								dom = true
+				}
+				if _, ok := in.(*ssa.Return); ok {
+					nOK++
+				}
+			}
+		} else {
+			// OK only on the true edge
+			tEdge := boolEdge(fn, call, true)
+			underTrue := func(b *ssa.BasicBlock) bool {
+				for _, pb := range fn.Blocks {
+					for _, s := range pb.Succs {
+						if tEdge(pb, s) && len(s.Preds) == 1 && s.Dominates(b) {
+							return true
+						}
+					}
+				}
+				return false
+			}
+			for _, b := range fn.Blocks {
+				for _, in := range b.Instrs {
+					switch x := in.(type) {
+					case *ssa.Store:
+						if !strings.HasSuffix(fieldPath(x.Addr), "Status") {
+							continue
+						}
+						if k, isk := constInt(x.Val); isk && k == 0 {
+							nOK++
+							R.Check(underTrue(b), id, FuncName(fn)+"|OK only when the commit succeeded", P.Pos(in.Pos()), "NFS3_OK is stored only under CommitWait(true) == true", "dominated by the true edge", "success reported although the commit failed or did not happen")
+						}
+					case *ssa.Return:
+						for _, res := range x.Results {
+							if k, isk := constInt(res); isk && k == 0 && isNamedStatus(res.Type()) {
+								nOK++
+								R.Check(underTrue(b), id, FuncName(fn)+"|OK only when the commit succeeded", P.Pos(in.Pos()), "NFS3_OK is returned only under CommitWait(true) == true", "dominated by the true edge", "success reported although the commit failed or did not happen")
 							}
 						}
 					}
-					R.Check(dom, id, FuncName(fn)+"|OK only when the commit succeeded", P.Pos(in.Pos()), "NFS3_OK is stored only under CommitWait(true) == true", "dominated by the true edge", "success reported although the commit failed or did not happen")
 				}
 			}
 		}
